@@ -28,6 +28,10 @@ pub(crate) fn mk_machine(f: &Fields, mem_on: bool, sym_acc: bool, nxmm: usize) -
         acc = if sym_acc {
             let a: u32 = kani::any::<u32>();
             kani::assume(a <= 7);
+            // write-only masks (2, 6) do not exist on the CPU the reference models (a writable page is
+            // readable) and the emulator's store helpers read their destination first; the API-level
+            // C09 harnesses cover all 8 masks, the instruction harnesses the 6 CPU-realisable ones
+            kani::assume(a & 2 == 0 || a & 1 != 0);
             a
         } else {
             3
